@@ -22,6 +22,7 @@ import time
 
 VERIF = os.path.dirname(os.path.dirname(os.path.abspath(__file__)))
 REPO = "/repo"
+HEAD = subprocess.run("git -C /repo rev-parse --short HEAD", shell=True, capture_output=True, text=True).stdout.strip()
 FILES = {
     "cloudsync/sync/manager.py": ["C03", "C01", "C10", "C14", "C06", "C07", "C02", "C04", "C05", "C12", "C08", "C11", "C15", "C17", "C20"],
     "cloudsync/sync/state.py": ["C03", "C01", "C11", "C08", "C10", "C14", "C06", "C07", "C02", "C04", "C05", "C17", "C12", "C15", "C20"],
@@ -183,7 +184,7 @@ def gen(outdir, per_file, seed):
             d = os.path.join(outdir, mid)
             os.makedirs(d, exist_ok=True)
             open(os.path.join(d, "mutated.py"), "w").write(new)
-            index.append({"id": mid, "file": rel, "op": op, "func": fn, "line": lineno, "old": text[a:b][:120], "new": repl[:140],
+            index.append({"id": mid, "base_commit": HEAD, "file": rel, "op": op, "func": fn, "line": lineno, "old": text[a:b][:120], "new": repl[:140],
                           "context": text.split("\n")[lineno - 1].strip()[:160]})
             picked += 1
     json.dump(index, open(os.path.join(outdir, "index.json"), "w"), indent=1)
@@ -197,7 +198,18 @@ def scratch(outdir, m):
     sh("git -C %s worktree remove --force %s" % (REPO, d))
     rc, out = sh("git -C %s worktree add -q --detach %s HEAD" % (REPO, d))
     assert rc == 0, out
-    shutil.copy(os.path.join(outdir, m["id"], "mutated.py"), os.path.join(d, m["file"]))
+    base = m.get("base_commit")
+    if base:
+        # the mutant was generated against an older commit: carry the one-hunk edit over to the current HEAD
+        orig = subprocess.run("git -C %s show %s:%s" % (REPO, base, m["file"]), shell=True, capture_output=True, text=True).stdout
+        of = os.path.join(outdir, m["id"], "orig.py")
+        open(of, "w").write(orig)
+        rc, out = sh("diff -u %s %s > %s/m.patch; patch -s %s < %s/m.patch" % (
+            of, os.path.join(outdir, m["id"], "mutated.py"), os.path.join(outdir, m["id"]), os.path.join(d, m["file"]),
+            os.path.join(outdir, m["id"])))
+        assert rc == 0, out
+    else:
+        shutil.copy(os.path.join(outdir, m["id"], "mutated.py"), os.path.join(d, m["file"]))
     return d
 
 
